@@ -187,11 +187,31 @@ class SQLDataStore(datastore.DataStore):
     dtq = dtq.where(self._trials_table.c.owner_id == study_resource.owner_id)
     dtq = dtq.where(self._trials_table.c.study_id == study_resource.study_id)
 
+    # Delete the study's suggestion and early stopping operations as well.
+    doq = self._suggestion_operations_table.delete()
+    doq = doq.where(
+        self._suggestion_operations_table.c.owner_id == study_resource.owner_id
+    )
+    doq = doq.where(
+        self._suggestion_operations_table.c.study_id == study_resource.study_id
+    )
+    deq = self._early_stopping_operations_table.delete()
+    deq = deq.where(
+        self._early_stopping_operations_table.c.owner_id
+        == study_resource.owner_id
+    )
+    deq = deq.where(
+        self._early_stopping_operations_table.c.study_id
+        == study_resource.study_id
+    )
+
     with self._lock:
       if not self._connection.execute(eq).fetchone()[0]:
         raise NotFoundError('Study %s does not exist.' % study_name)
       self._write_or_rollback(dsq)
       self._write_or_rollback(dtq)
+      self._write_or_rollback(doq)
+      self._write_or_rollback(deq)
       self._connection.commit()
 
   def list_studies(self, owner_name: str) -> List[study_pb2.Study]:
